@@ -115,7 +115,7 @@ Context {A : Type} (cmp : A -> A -> comparison).
 Fixpoint insert_sorted (x : A) (l : list A) : list A :=
   match l with
   | [] => [x]
-  | h :: t => match cmp x h with Lt => x :: l | _ => h :: insert_sorted x t end
+  | h :: t => match cmp x h with Gt => h :: insert_sorted x t | _ => x :: l end
   end.
 Definition stable_sort (l : list A) : list A := fold_right insert_sorted [] l.
 Definition leq (a b : A) : bool := match cmp a b with Gt => false | _ => true end.
